@@ -636,3 +636,70 @@ def patch_module(mod, **extra):
     arrays.patch_module(mod, **extra)
     if hasattr(mod, "np"):
         mod.np = NPL
+
+
+# --------------------------------------------------------------------------- #
+# arange / take with symbolic extents
+
+
+def arange(*args, dtype=None):
+    if not any(isinstance(a, Sym) for a in args):
+        return np.arange(*args, dtype=dtype)
+    if len(args) == 1:
+        start, stop, step = 0, args[0], 1
+    elif len(args) == 2:
+        start, stop, step = args[0], args[1], 1
+    else:
+        start, stop, step = args
+    if isinstance(step, Sym):
+        raise Unsupported("arange with symbolic step")
+
+    def as_int(v):
+        if isinstance(v, SReal):
+            f = v.floor()
+            if not builtins.bool(core.eq(core._as_real(f), v)):
+                raise Unsupported("arange with a non-integer symbolic bound")
+            return f
+        if isinstance(v, builtins.float) and v.is_integer():
+            return builtins.int(v)
+        return v
+    start, stop = as_int(start), as_int(stop)
+    if not isinstance(step, (builtins.int, np.integer)) or step <= 0:
+        raise Unsupported("arange step")
+    n = ite(stop > start, (stop - start + (step - 1)) // step, 0)
+    try:
+        aid = op_aid(f"arange{step}", start, n)
+    except Unsupported:
+        aid = None
+    return LArr((n,), lambda i: start + i * step, aid=aid, tag=np.dtype(np.int64))
+
+
+def take(a, indices, axis=None, **k):
+    if axis is None:
+        if a.ndim != 1:
+            raise Unsupported("take on flattened lazy array")
+        axis = 0
+    axis = axis % a.ndim
+    if not isinstance(indices, LArr):
+        key = tuple(indices if r == axis else slice(None) for r in range(a.ndim))
+        return a[key]
+    if indices.ndim != 1:
+        raise Unsupported("take with n-d lazy indices")
+    n = a.shape[axis]
+    shape = list(a.shape)
+    shape[axis] = indices.shape[0]
+    fa, fi = a.fn, indices.fn
+
+    def fn(*idx):
+        src = list(idx)
+        j = fi(idx[axis])
+        src[axis] = ite(j < 0, j + n, j)
+        return fa(*src)
+    aid = op_aid(f"take{axis}", a._aid, indices._aid) if a._aid is not None and indices._aid is not None else None
+    return LArr(shape, fn, aid=aid, tag=a.tag)
+
+
+FUNCTIONS[np.take] = take
+FUNCTIONS[np.conj] = lambda a: a._unary(arrays.UFUNC_TABLE[np.conjugate], "conj")
+FUNCTIONS[np.conjugate] = FUNCTIONS[np.conj]
+NPL.arange = arange
